@@ -30,6 +30,12 @@ def extra(ctx: Ctx, sweep: dict) -> None:
     from ..layoutreplay import report as report_layout, run_slices
     total = run_slices(ctx, ["A", "C", "D", "E"] if ctx.tier == "quick" else ["A", "B", "C", "D", "E", "F"], {"F": 2})
     report_layout(ctx, total, "C06")
+    # the same programs on models with output-optional fields (TypedDict keys): another generated access / dump path per mode
+    from .. import layoutreplay
+    layoutreplay.TYPE_PRED_ALLOWED["on"] = False      # Required[int] is not selected by the predicate `int`: known finding of C17, not a C06 matter
+    total = run_slices(ctx, ["C", "E"] if ctx.tier == "quick" else ["A", "B", "C", "D", "E", "F"], {"F": 1}, twins=False, kind_tla="typeddict",
+                       kinds=["typeddict", "typeddict_total_false"], every=2 if ctx.tier == "quick" else 1)
+    report_layout(ctx, total, "C06")
 
 
 def replay(path: str) -> int:
